@@ -50,21 +50,21 @@ def mk_sep_penalty(h, name, p=2, step=None, weights=None, alpha=None, zero_weigh
     if base == 'L1':
         pen = h.penalty(Pm.L1, alpha=al, positive=positive)
     elif base == 'L1_plus_L2':
-        r = HYPER_CATALOGUE['l1_ratio'] if concrete_hyper else h.real('l1_ratio')
+        r = h.constant(HYPER_CATALOGUE['l1_ratio']) if concrete_hyper else h.real('l1_ratio')
         h.assume(r >= 0, r <= 1)
         meta['l1_ratio'] = r
         pen = h.penalty(Pm.L1_plus_L2, alpha=al, l1_ratio=r, positive=positive)
     elif base == 'WeightedL1':
         pen = h.penalty(Pm.WeightedL1, alpha=al, weights=weights, positive=positive)
     elif base == 'MCPenalty':
-        g = (gamma or HYPER_CATALOGUE['gamma_mcp']) if concrete_hyper else h.real('gamma')
+        g = h.constant(gamma or HYPER_CATALOGUE['gamma_mcp']) if concrete_hyper else h.real('gamma')
         h.assume(g > 0)
         if step is not None:
             h.assume(g > step)
         meta.update(convex=False, gamma=g)
         pen = h.penalty(Pm.MCPenalty, alpha=al, gamma=g, positive=positive)
     elif base == 'WeightedMCPenalty':
-        g = (gamma or HYPER_CATALOGUE['gamma_mcp']) if concrete_hyper else h.real('gamma')
+        g = h.constant(gamma or HYPER_CATALOGUE['gamma_mcp']) if concrete_hyper else h.real('gamma')
         h.assume(g > 0)
         if step is not None:
             for j in range(p):
@@ -72,7 +72,7 @@ def mk_sep_penalty(h, name, p=2, step=None, weights=None, alpha=None, zero_weigh
         meta.update(convex=False, gamma=g)
         pen = h.penalty(Pm.WeightedMCPenalty, alpha=al, gamma=g, weights=weights, positive=positive)
     elif base == 'SCAD':
-        g = (h.real('gamma') if not concrete_hyper else HYPER_CATALOGUE['gamma_scad']) if gamma is None else gamma
+        g = (h.real('gamma') if not concrete_hyper else h.constant(HYPER_CATALOGUE['gamma_scad'])) if gamma is None else h.constant(gamma)
         h.assume(g > 2)
         if step is not None:
             h.assume(g - 1 > step)
@@ -92,7 +92,7 @@ def mk_sep_penalty(h, name, p=2, step=None, weights=None, alpha=None, zero_weigh
         meta.update(convex=False)
         pen = h.penalty(Pm.L2_3, alpha=al)
     elif base == 'LogSumPenalty':
-        e = HYPER_CATALOGUE['eps'] if concrete_hyper else h.real('eps')
+        e = h.constant(HYPER_CATALOGUE['eps']) if concrete_hyper else h.real('eps')
         h.assume(e > 0)
         meta.update(convex=False, eps=e)
         pen = h.penalty(Pm.LogSumPenalty, alpha=al, eps=e)
